@@ -93,7 +93,7 @@ impl Property for C05 {
     }
 
     fn cases(tier: Tier) -> u64 {
-        tier.pick(4_000, 50_000)
+        tier.pick(4_000, 200_000)
     }
 
     fn strategy(_tier: Tier) -> BoxedStrategy<Case> {
